@@ -1,4 +1,215 @@
-//! File-level operations (readers, writers, counters): filled in per property.
-pub fn exec(p: &[&str], _scratch: &str) -> String {
-    format!("UNKNOWN-OP {}", p[0])
+//! File-level operations: the harness serialises the records of a case into the requested container,
+//! runs the library routine on that file and returns the output in canonical form.
+use crate::{hex, unhex, unhex_list};
+use flate2::write::GzEncoder;
+use flate2::Compression;
+use std::io::Write;
+
+fn gz(parts: &[Vec<u8>], level: Compression) -> Vec<u8> {
+    let mut out = vec![];
+    for p in parts {
+        let mut e = GzEncoder::new(Vec::new(), level);
+        e.write_all(p).unwrap();
+        out.extend(e.finish().unwrap());
+    }
+    out
+}
+
+/// text of one record in FASTA (wrap = 0: single line) or FASTQ
+fn record_text(i: usize, seq: &[u8], fastq: bool, wrap: usize, eol: &str) -> Vec<u8> {
+    let mut t = vec![];
+    let desc = if i % 3 == 1 { " some description" } else { "" };
+    if fastq {
+        t.extend(format!("@r{}{}{}", i, desc, eol).bytes());
+        t.extend(seq); t.extend(eol.bytes());
+        t.extend(format!("+{}", eol).bytes());
+        t.extend(std::iter::repeat(b'I').take(seq.len())); t.extend(eol.bytes());
+    } else {
+        t.extend(format!(">r{}{}{}", i, desc, eol).bytes());
+        if wrap == 0 { t.extend(seq); t.extend(eol.bytes()); }
+        else { for c in seq.chunks(wrap) { t.extend(c); t.extend(eol.bytes()); } }
+    }
+    t
+}
+
+/// container: fa | faw (wrapped) | facrlf | fq | fagz | fqgz | fagzm (several members) | fagz0 (stored)
+pub fn serialise(recs: &[Vec<u8>], container: &str, wrap: usize, dir: &str, stem: &str) -> String {
+    let fastq = container.starts_with("fq");
+    let eol = if container == "facrlf" { "\r\n" } else { "\n" };
+    let w = if container == "faw" || container == "facrlf" { wrap.max(1) } else { 0 };
+    let texts: Vec<Vec<u8>> = recs.iter().enumerate().map(|(i, s)| record_text(i, s, fastq, w, eol)).collect();
+    let ext = if fastq { "fq" } else if container == "faw" { "fasta" } else if container == "facrlf" { "fna" } else { "fa" };
+    let (bytes, name) = match container {
+        "fagz" | "fqgz" => (gz(&[texts.concat()], Compression::default()), format!("{}.{}.gz", stem, ext)),
+        "fagz0" => (gz(&[texts.concat()], Compression::none()), format!("{}.{}.gz", stem, ext)),
+        "fagzm" => {
+            // one member per 1..3 records, plus an empty final member as bgzip writes
+            let mut parts: Vec<Vec<u8>> = vec![];
+            for (i, t) in texts.iter().enumerate() {
+                if i % 3 == 0 || parts.is_empty() { parts.push(vec![]); }
+                parts.last_mut().unwrap().extend(t);
+            }
+            parts.push(vec![]);
+            (gz(&parts, Compression::default()), format!("{}.{}.gz", stem, ext))
+        }
+        _ => (texts.concat(), format!("{}.{}", stem, ext)),
+    };
+    let path = format!("{}/{}", dir, name);
+    std::fs::write(&path, bytes).unwrap();
+    path
+}
+
+fn fresh(scratch: &str) -> String {
+    let d = format!("{}/case", scratch);
+    let _ = std::fs::remove_dir_all(&d);
+    std::fs::create_dir_all(&d).unwrap();
+    d
+}
+
+fn parse_points(text: &str, arity: usize) -> String {
+    // rows "(a,b) (a,b)\n" or "(a,b,c) ..."; numbers are parsed back and printed as bit patterns
+    let mut rows = vec![];
+    for line in text.split('\n') {
+        let mut items = vec![];
+        for it in line.split(' ').filter(|x| !x.is_empty()) {
+            let inner = it.trim_start_matches('(').trim_end_matches(')');
+            let nums: Vec<String> = inner.split(',').map(|x| x.parse::<f64>().map(|v| v.to_bits().to_string()).unwrap_or("?".into())).collect();
+            if nums.len() != arity { items.push("?".into()); } else { items.push(nums.join(":")); }
+        }
+        rows.push(items.join(","));
+    }
+    if text.ends_with('\n') { rows.pop(); } else if !text.is_empty() { rows.push("NO-FINAL-NEWLINE".into()); }
+    if text.is_empty() { rows.clear(); }
+    rows.join(";")
+}
+
+fn leftover(dir: &str) -> String {
+    let n = std::fs::read_dir(dir).unwrap().filter(|e| e.as_ref().unwrap().file_name().to_string_lossy().starts_with("temp_kmers")).count();
+    if n == 0 { "".into() } else { format!("|leftover={}", n) }
+}
+
+fn rec_index(id: &str) -> usize { id.trim_start_matches('r').parse().unwrap_or(usize::MAX) }
+
+pub fn exec(p: &[&str], scratch: &str) -> String {
+    match p[0] {
+        "ofile" => {
+            // ofile k norm hdr delim threads mem writer container wrap recs
+            let d = fresh(scratch);
+            let recs = unhex_list(p[10]);
+            let inp = serialise(&recs, p[8], p[9].parse().unwrap(), &d, "in");
+            let out = format!("{}/out.vec", d);
+            let mut c = composition::oligo::OligoComputer::new(inp, out.clone(), p[1].parse().unwrap());
+            c.set_norm(p[2] == "1"); c.set_header(p[3] == "1");
+            c.set_delim(String::from_utf8(unhex(p[4])).unwrap());
+            let t: usize = p[5].parse().unwrap(); if t > 0 { c.set_threads(t); }
+            c.set_max_memory(p[6].parse().unwrap());
+            let r = match p[7] { "mmap" => c.verif_vectorise_mmap(), "batch" => c.verif_vectorise_batch(), _ => c.vectorise() };
+            if let Err(e) = r { return format!("ERR {}", e); }
+            hex(&std::fs::read(&out).unwrap())
+        }
+        "cgrfile" => {
+            // cgrfile S threads mem container recs
+            let d = fresh(scratch);
+            let recs = unhex_list(p[5]);
+            let inp = serialise(&recs, p[4], 60, &d, "in");
+            let out = format!("{}/out.cgr", d);
+            let mut c = composition::cgr::CgrComputer::new(inp, out.clone(), p[1].parse().unwrap());
+            let t: usize = p[2].parse().unwrap(); if t > 0 { c.set_threads(t); }
+            c.verif_set_max_memory(p[3].parse().unwrap());
+            let r = std::panic::catch_unwind(std::panic::AssertUnwindSafe(|| c.vectorise()));
+            match r { Ok(Ok(())) => parse_points(&String::from_utf8_lossy(&std::fs::read(&out).unwrap()), 2), _ => "ERR".into() }
+        }
+        "ocgrfile" => {
+            // ocgrfile k S norm threads mem container recs
+            let d = fresh(scratch);
+            let recs = unhex_list(p[7]);
+            let inp = serialise(&recs, p[6], 60, &d, "in");
+            let out = format!("{}/out.cgr", d);
+            let mut c = composition::oligocgr::OligoCgrComputer::new(inp, out.clone(), p[1].parse().unwrap(), p[2].parse().unwrap());
+            c.set_norm(p[3] == "1");
+            let t: usize = p[4].parse().unwrap(); if t > 0 { c.set_threads(t); }
+            c.verif_set_max_memory(p[5].parse().unwrap());
+            match c.vectorise() { Ok(()) => parse_points(&String::from_utf8_lossy(&std::fs::read(&out).unwrap()), 3), Err(e) => format!("ERR {}", e) }
+        }
+        "ctr" => {
+            // ctr k threads memf acgt container recs
+            let d = fresh(scratch);
+            let recs = unhex_list(p[6]);
+            let inp = serialise(&recs, p[5], 60, &d, "in");
+            let od = format!("{}/out", d); std::fs::create_dir_all(&od).unwrap();
+            let mut c = counter::CountComputer::new(inp, od.clone(), p[1].parse().unwrap());
+            let t: usize = p[2].parse().unwrap(); if t > 0 { c.set_threads(t); }
+            c.set_max_memory(p[3].parse().unwrap());
+            c.set_acgt_output(p[4] == "1");
+            c.count(); c.merge(true);
+            let text = String::from_utf8(std::fs::read(format!("{}/kmers.counts", od)).unwrap()).unwrap();
+            let mut lines: Vec<(String, String)> = text.lines().map(|l| { let mut it = l.split('\t'); (it.next().unwrap_or("?").to_string(), it.next().unwrap_or("?").to_string()) }).collect();
+            if p[4] == "1" { lines.sort(); } else { lines.sort_by_key(|(k, c)| (k.parse::<u64>().unwrap_or(u64::MAX), c.clone())); }
+            format!("{}{}", lines.iter().map(|(k, c)| format!("{}:{}", k, c)).collect::<Vec<_>>().join(","), leftover(&od))
+        }
+        "cov" => {
+            // cov k bs bc norm delim threads flush container recs altrecs   (altrecs "=" : same file)
+            let d = fresh(scratch);
+            let recs = unhex_list(p[9]);
+            let inp = serialise(&recs, p[8], 60, &d, "in");
+            let od = format!("{}/out", d); std::fs::create_dir_all(&od).unwrap();
+            let mut c = coverage::CovComputer::new(inp.clone(), od.clone(), p[1].parse().unwrap(), p[2].parse().unwrap(), p[3].parse().unwrap());
+            c.set_norm(p[4] == "1");
+            c.set_delim(String::from_utf8(unhex(p[5])).unwrap());
+            let t: usize = p[6].parse().unwrap(); if t > 0 { c.set_threads(t); }
+            // the row writer flushes when total >= (memory as u64) * 2^30: 0.5 -> after every record
+            c.set_max_memory(if p[7] == "1" { 0.5 } else { 6.0 });
+            let alt = unhex_list(p[10]);
+            if alt != recs { c.set_kmer_path(serialise(&alt, "fa", 0, &d, "alt")); }
+            c.build_table().unwrap();
+            c.compute_coverages();
+            format!("{}{}", hex(&std::fs::read(format!("{}/kmers.vectors", od)).unwrap()), leftover(&od))
+        }
+        "s2m" | "m2s" => {
+            // s2m w m threads container recs
+            let d = fresh(scratch);
+            let recs = unhex_list(p[5]);
+            let inp = serialise(&recs, p[4], 60, &d, "in");
+            let out = format!("{}/out.min", d);
+            let (w, m, t): (usize, usize, usize) = (p[1].parse().unwrap(), p[2].parse().unwrap(), p[3].parse().unwrap());
+            if p[0] == "s2m" { misc::minimisers::seq_to_min(w, m, &inp, &out, t); } else { misc::minimisers::bin_sequences(w, m, &inp, &out, t); }
+            let text = String::from_utf8(std::fs::read(&out).unwrap()).unwrap();
+            if p[0] == "s2m" {
+                // "id\tMMER:s-e\t...\t\n" ; one line per record, any order
+                let mut lines: Vec<(usize, String)> = vec![];
+                for l in text.split('\n') {
+                    if l.is_empty() { continue; }
+                    let mut f: Vec<&str> = l.split('\t').collect();
+                    if f.last() == Some(&"") { f.pop(); }
+                    let id = f[0];
+                    let runs: Vec<String> = f[1..].iter().map(|r| r.replace('-', ":")).collect();
+                    lines.push((rec_index(id), format!("{}={}", id, runs.join("+"))));
+                }
+                lines.sort();
+                lines.into_iter().map(|x| x.1).collect::<Vec<_>>().join(";")
+            } else {
+                // KEY\t[("r1", 0, 5), ("r2", 3, 9)]
+                let mut lines: Vec<(String, String)> = vec![];
+                for l in text.split('\n') {
+                    if l.is_empty() { continue; }
+                    let (key, rest) = l.split_once('\t').unwrap_or((l, ""));
+                    let inner = rest.trim_start_matches('[').trim_end_matches(']');
+                    let mut es: Vec<(usize, usize, usize, String)> = vec![];
+                    for e in inner.split("), (") {
+                        let e = e.trim_start_matches('(').trim_end_matches(')');
+                        if e.is_empty() { continue; }
+                        let f: Vec<&str> = e.split(", ").collect();
+                        let id = f[0].trim_matches('"');
+                        let (s, en): (usize, usize) = (f[1].parse().unwrap_or(usize::MAX), f[2].parse().unwrap_or(usize::MAX));
+                        es.push((rec_index(id), s, en, format!("{}:{}:{}", id, s, en)));
+                    }
+                    es.sort();
+                    lines.push((key.to_string(), format!("{}={}", key, es.into_iter().map(|x| x.3).collect::<Vec<_>>().join("+"))));
+                }
+                lines.sort();
+                lines.into_iter().map(|x| x.1).collect::<Vec<_>>().join(";")
+            }
+        }
+        _ => crate::sched::exec(p, scratch),
+    }
 }
